@@ -22,6 +22,8 @@ func checkC02(p *Prog, r *Report) {
 	c02SourceDefined(p, r)
 	mineralBooks(p, r, "C02.R9")
 	nmoveSweeps(p, r, "C02.R10")
+	c02Inputs(p, r, "C02.R11")
+	uptakeReset(p, r, "C02.R12")
 }
 
 func walkedOpaque(p *Prog, key string, opaque ...string) *Exec {
